@@ -112,6 +112,19 @@ def check(report, module: str, base_cfg: str, traces: list, p_guards: list, *, p
                 elif pos in _inv:       # without the guard TLC got far enough to violate an invariant of the cfg
                     named[k] = f"guard {g} (and invariant {_inv[pos]})"
             todo = [k for k in todo if named[k] is None]
+        # several clauses failing at the same event: isolate (only guard g enabled) and name every failing one
+        todo = [k for k in named if named[k] is None]
+        if todo:
+            failing = {k: [] for k in todo}
+            for g in p_guards:
+                others = [h for h in p_guards if h != g]
+                r, _inv = _run(module, base_cfg, [subsub[k] for k in todo], "P", others, timeout)
+                for pos, k in enumerate(todo):
+                    if pos in _inv or (pos in r and r[pos][0] < r[pos][1] and r[pos][0] <= base[k]):
+                        failing[k].append(g)
+            for k in todo:
+                if failing[k]:
+                    named[k] = "guards " + " + ".join(failing[k])
         for k, j in enumerate(still):
             t = subsub[k]
             stats["rejected_P"] += 1
